@@ -208,7 +208,7 @@ add = Contract(
             Shape("other", dict(self=FmtT(), other=OtherT()))],
     ensures=lambda a, r: [("post.notimplemented", r is NotImplemented)] if _is_other(a.other) else
                          [("post.concat", cells(r) == concat(cells(a.self), cells(a.other)))],
-    result=FmtT())
+    result=FmtT(), callees={"fmtstr": M + "fmtstr"})
 
 radd = Contract(
     M + "FmtStr.__radd__", "C06", ["self", "other"], kind="method",
@@ -216,7 +216,7 @@ radd = Contract(
             Shape("other", dict(self=FmtT(), other=OtherT()))],
     ensures=lambda a, r: [("post.notimplemented", r is NotImplemented)] if _is_other(a.other) else
                          [("post.concat", cells(r) == concat(cells(a.other), cells(a.self)))],
-    result=FmtT())
+    result=FmtT(), callees={"fmtstr": M + "fmtstr"})
 
 
 def _is_other(x):
